@@ -1034,9 +1034,10 @@ func (j *jsonhRunner) execB(c *jsonhCase, buf *bytes.Buffer, threshold slog.Leve
 // immediately before each call: keep the pairs adjacent).
 //
 //go:noinline
-func jsonhCallA(l *logger.Logger, variant int, ctx context.Context, level slog.Level, msg string, args []any, attrs []slog.Attr) (string, int) {
+func jsonhCallA(l *logger.Logger, variant int, ctx context.Context, level slog.Level, msg string, args []any, attrs []slog.Attr) (rfile string, rline int) {
 	var file string
 	var ln int
+	defer func() { rfile, rline = file, ln+1 }() // also when Panic/Panicf unwinds through here
 	switch {
 	case variant == 1:
 		_, file, ln, _ = runtime.Caller(0)
@@ -1053,6 +1054,29 @@ func jsonhCallA(l *logger.Logger, variant int, ctx context.Context, level slog.L
 	case variant == 2 && level == logger.LevelError:
 		_, file, ln, _ = runtime.Caller(0)
 		l.Error(msg, args...)
+	case variant == 3 && level == logger.LevelDebug:
+		_, file, ln, _ = runtime.Caller(0)
+		l.Debugf("%s", msg)
+	case variant == 3 && level == logger.LevelInfo:
+		_, file, ln, _ = runtime.Caller(0)
+		l.Infof("%s", msg)
+	case variant == 3 && level == logger.LevelWarn:
+		_, file, ln, _ = runtime.Caller(0)
+		l.Warnf("%s", msg)
+	case variant == 3 && level == logger.LevelError && len(msg)%3 == 0:
+		_, file, ln, _ = runtime.Caller(0)
+		l.Errorf("%s", msg)
+	case variant == 3 && level == logger.LevelError && len(msg)%3 == 1:
+		defer func() { recover() }() // Panic logs at ERROR and then panics with the message
+		_, file, ln, _ = runtime.Caller(0)
+		l.Panic(msg)
+	case variant == 3 && level == logger.LevelError:
+		defer func() { recover() }()
+		_, file, ln, _ = runtime.Caller(0)
+		l.Panicf("%s", msg)
+	case variant == 3:
+		_, file, ln, _ = runtime.Caller(0)
+		l.Logf(ctx, level, "%s", msg)
 	default:
 		_, file, ln, _ = runtime.Caller(0)
 		l.Log(ctx, level, msg, args...)
@@ -1091,10 +1115,12 @@ func (j *jsonhRunner) runA(in *jsonhInput) {
 		ev.chain = append(ev.chain, jsonhWStep{attrs: j.walkAll(attrs, ev, true)})
 		hsteps = append(hsteps, jsonhStep{attrs: attrs})
 	}
-	variant := r.Intn(3)
+	variant := r.Intn(4)
 	var args []any
 	var attrs []slog.Attr
-	if variant == 1 {
+	if variant == 3 {
+		// the formatting methods and Panic/Panicf (recovered): message only
+	} else if variant == 1 {
 		attrs = jsonhAttrsOf(in.rec)
 	} else {
 		args = j.toArgs(in.rec)
@@ -1114,7 +1140,7 @@ func (j *jsonhRunner) runA(in *jsonhInput) {
 		ev.lineText = "0"
 	}
 	j.s.Dist["mode:A"]++
-	j.s.Dist["api:"+[]string{"Log", "LogAttrs", "helper"}[variant]]++
+	j.s.Dist["api:"+[]string{"Log", "LogAttrs", "helper", "formatted+panic"}[variant]]++
 	v := j.finish(ev, real, "A", func() *jsonhCase {
 		return &jsonhCase{addSource: in.addSource, level: in.level, steps: hsteps, msg: in.msg, attrs: seen, t: j.times[0], pc: jsonhPC{line: "0"}}
 	})
@@ -1739,7 +1765,7 @@ func jsonhRunJson(cfg Cfg) {
 		"every case = two op lines (line: bytes written; tree: ordered token-walk decoding of those bytes)",
 		"model input and expected tree are computed by walking the constructed slog values like the handler (Resolve, group/leaf), stdlib results (strconv, time.AppendFormat, encoding/json, Error()) are payloads",
 		"excluded: LogValuers that panic (slog turns them into an error text with a stack trace)",
-		"excluded: Logger.Fatal/Fatalf/Panic/Panicf (exit / panic after logging); level FATAL is reached through Log/LogAttrs",
+		"excluded: Logger.Fatal/Fatalf (exit after logging); level FATAL is reached through Log/Logf/LogAttrs; Panic/Panicf are called and recovered",
 		"excluded: Handler.WithGroup(\"\") through the Handler API (Logger.WithGroup filters the empty name; driven only as the Logger no-op)",
 		"source-short-path: frame files with fewer than two directory components (pc = 0 gives file \"\"): source.file is not asserted by the oracle (still compared with the model)",
 		"a json.Marshaler that returns well-formed JSON containing invalid UTF-8 inside a string passes through encoding/json unchanged: for those cases the oracle skips only its whole-line UTF-8 check",
